@@ -1691,8 +1691,8 @@ func buildTier(tier string) tierSpec {
 	switch tier {
 	case "quick":
 		t.codecs = allCodecs[:7]
-		partA(t.codecs, []int{1280, 1500}, "all", "std", "std", psModes)
-		partB(t.codecs, [][2]int{{1280, 1280}, {1500, 1500}, {1500, 1280}}, "all", "std", "relay", []string{"PadPlainDNS", "PadAll"}, []string{"min", "max"})
+		partA(t.codecs, []int{1280, 1500}, "all", "wide", "std", psModes)
+		partB(t.codecs, [][2]int{{1280, 1280}, {1500, 1500}, {1500, 1280}, {1280, 1500}}, "all", "std", "relay", policies, []string{"min", "max"})
 	default:
 		t.codecs = allCodecs
 		small := []int{1280, 1492, 1500}
